@@ -485,6 +485,8 @@ for _j in (False, True):
          [Theorem(f"{_n}.mask_nonempty", "proved", "every reachable state, finished or not, offers an action (mask_no_ops on and off)"),
           Theorem(f"{_n}.done_stable", "proved", "a step on a finished row is the identity, so done is absorbing"),
           Theorem(f"{_n}.steps_le", "proved", "an unfinished mask-confined run has at most 2·#operations steps"),
+          Theorem("Rl4co.Fjsp.steps_eq", "proved",
+                  "a finished run has exactly one scheduling step per operation, plus at most one wait per operation"),
           Theorem("Rl4co.Fjsp.loop_terminates", "proved",
                   "the `while step_complete` loop comes to rest within the model's fuel (M+1) and the code's assert never fires"),
           Theorem("Rl4co.Fjsp.mask_of_done", "proved", "a finished row is offered exactly the wait action")])
